@@ -110,6 +110,20 @@ pub fn stress_one_focus(threads: usize, seed: u64, warm: bool, calls: usize, for
         for op in ["format_flat", "format", "tree_format"] { let b = bad.clone(); let _ = std::panic::catch_unwind(move || run_op_bytes(op, &b)); }
         println!("note caught-panic-before-race");
     }
+    if forced_focus.as_deref() == Some("poison") || (!warm && seed % 16 == 11) {
+        // application threads died while holding a registry guard (a lookup that panicked under the guard), before the format context
+        // was ever used: every later call still completes - the locks recover from poisoning
+        for which in 0..3 {
+            let _ = std::thread::spawn(move || {
+                match which {
+                    0 => { let g = known_values::KNOWN_VALUES.get(); let _n = g.as_ref().map(|s| s.name(known_values::NOTE)); panic!("worker died holding the known-values guard"); }
+                    1 => { let g = bc_envelope::extension::expressions::GLOBAL_FUNCTIONS.get(); let _n = g.as_ref().map(|s| s.name(&bc_envelope::functions::ADD)); panic!("worker died holding the functions guard"); }
+                    _ => { let g = bc_envelope::extension::expressions::GLOBAL_PARAMETERS.get(); let _n = g.as_ref().map(|s| s.name(&bc_envelope::parameters::LHS)); panic!("worker died holding the parameters guard"); }
+                }
+            }).join();
+        }
+        println!("note workers-died-holding-registry-guards");
+    }
     let barrier = Arc::new(Barrier::new(threads));
     let mut hs = vec![];
     // in some runs thread 0 is an application that keeps adding its own tags to the shared context and formats values
@@ -301,6 +315,7 @@ pub fn campaign(outdir: &str, seed: u64, thorough: bool) {
     for rep in 0..(reps * 2) { plan.push(([2usize, 3, 8][rep % 3], false, rng.next(), Some("holder".to_string()))); }
     for rep in 0..(reps * 2) { plan.push(([2usize, 4, 8][rep % 3], true, rng.next(), Some("guardfmt".to_string()))); }
     for rep in 0..(reps * 2) { plan.push(([4usize, 8, 16][rep % 3], rep % 2 == 0, rng.next(), Some("ownfmt".to_string()))); }
+    for rep in 0..reps { plan.push(([2usize, 8][rep % 2], false, rng.next(), Some("poison".to_string()))); }
     for r in 0..rounds { plan.push(([2usize, 3, 4, 8, 16][r % 5], r % 3 == 2, rng.next(), None)); }
     for (threads, warm, s, focus) in plan {
         // three runs that never finished are enough to report; every further one costs a full watchdog period
